@@ -104,7 +104,8 @@ def cmdParse : List String → String
       let errs := "[" ++ ",".intercalate (r.errors.map toString) ++ "],\"sites\":[" ++
         ",".intercalate (r.sites.map fun x => "\"" ++ x ++ "\"") ++ "],\"examined\":" ++
         (match r.last with | some t => toString t.last | none => "-1") ++
-        ",\"exhausted\":" ++ (if r.exhausted then "true" else "false")
+        ",\"exhausted\":" ++ (if r.exhausted then "true" else "false") ++
+        ",\"sane\":" ++ (if saneToks g ⟨g, dk⟩ (lexAll g ⟨g, dk⟩ doc).1 then "true" else "false")
       match r.outcome with
       | .ok items =>
         "{\"ok\":" ++ jVal (.cont .module items) ++ ",\"errors\":" ++ errs ++ "}"
